@@ -143,6 +143,7 @@ def run(ck):
         stats["reloads_after_invert_loop"] = stats.get("reloads_after_invert_loop", 0) + out.count("\nreload invloop")
         stats["position_control_calls_between_buffer_calls"] = (stats.get("position_control_calls_between_buffer_calls", 0)
                                                                 + out.count("\nctl ") - out.count("\nctl skipped"))
+        stats["refused_calls_between_buffer_calls"] = stats.get("refused_calls_between_buffer_calls", 0) + out.count("\nrefused ")
         cases = parse_cases(out)
         if not cases:
             continue
